@@ -162,21 +162,46 @@ def gen_box(r, dim):
 
 
 # ----------------------------------------------------------------------------------------------------------- grids
-def make_grid(gs, a, b):
-    """fresh grid object of the family described by gs = {"name":..., "boundary":..., "modified":...}"""
+def grid_class(gs):
     import sparseSpACE.Grid as G
+    return {"Trapezoidal": G.TrapezoidalGrid, "ClenshawCurtis": G.ClenshawCurtisGrid, "GaussLegendre": G.GaussLegendreGrid,
+            "Lagrange": G.LagrangeGrid, "GlobalTrapezoidal": G.GlobalTrapezoidalGrid, "GlobalHighOrder": G.GlobalHighOrderGrid,
+            "GlobalRomberg": G.GlobalRombergGrid, "GlobalBalancedRomberg": G.GlobalBalancedRombergGrid}[gs["name"]]
+
+
+def grid_kwargs(gs):
+    n = gs["name"]
+    if n in ("Trapezoidal", "GlobalTrapezoidal"):
+        return {"boundary": gs["boundary"], "modified_basis": gs.get("modified", False)}
+    if n == "ClenshawCurtis":
+        return {"boundary": gs["boundary"]}
+    if n == "GaussLegendre":
+        return {}
+    if n == "Lagrange":
+        return {"boundary": gs["boundary"], "p": gs["p"]}
+    if n == "GlobalHighOrder":
+        return {"boundary": gs["boundary"], "max_degree": gs["max_degree"]}
+    if n == "GlobalRomberg":
+        return {"boundary": True}
+    if n == "GlobalBalancedRomberg":
+        return {"boundary": False}
+    raise ValueError(n)
+
+
+def grid_label(gs):
+    return gs["name"] + ("(p=%d)" % gs["p"] if "p" in gs else "") + ("(deg=%d)" % gs["max_degree"] if "max_degree" in gs else "")
+
+
+def is_nodal(gs):
+    """integrate == sum_i w_i f(x_i) over get_points_and_weights (not a hierarchical-basis grid)"""
+    return gs["name"] != "Lagrange"
+
+
+def make_grid(gs, a, b, cls=None):
+    """fresh grid object of the family described by gs = {"name":..., "boundary":..., ...}"""
     a = np.array(a, dtype=float)
     b = np.array(b, dtype=float)
-    n = gs["name"]
-    if n == "Trapezoidal":
-        return G.TrapezoidalGrid(a, b, boundary=gs["boundary"], modified_basis=gs.get("modified", False))
-    if n == "ClenshawCurtis":
-        return G.ClenshawCurtisGrid(a, b, boundary=gs["boundary"])
-    if n == "GaussLegendre":
-        return G.GaussLegendreGrid(a, b)
-    if n == "GlobalTrapezoidal":
-        return G.GlobalTrapezoidalGrid(a, b, boundary=gs["boundary"], modified_basis=gs.get("modified", False))
-    raise ValueError(n)
+    return (cls or grid_class(gs))(a, b, **grid_kwargs(gs))
 
 
 def rule_sum(points, weights, fspec):
@@ -192,9 +217,17 @@ def rule_sum(points, weights, fspec):
 
 
 def local_component(gs, a, b, lv, start, end, fspec):
-    """a fresh local grid of level lv on [start,end]: its (points, weights) and the own sum"""
+    """a fresh local grid of level lv on [start,end]: its (points, weights) and the own sum (nodal families) resp. the
+    value a fresh grid object + fresh Function object integrate to (hierarchical-basis families)"""
     g = make_grid(gs, a, b)
-    g.setCurrentArea(np.array(start, dtype=float), np.array(end, dtype=float), [int(x) for x in lv])
+    start = np.array(start, dtype=float)
+    end = np.array(end, dtype=float)
+    lv = [int(x) for x in lv]
+    if not is_nodal(gs):
+        with quiet():
+            v = g.integrate(make_function(fspec), lv, start, end)
+        return [], [], vec(np.array(v, dtype=float), fspec["outl"])
+    g.setCurrentArea(start, end, lv)
     pts, ws = g.get_points_and_weights()
     pts = [tuple(float(c) for c in p) for p in pts]
     ws = [float(w) for w in ws]
@@ -729,21 +762,16 @@ def rec_classes():
     from sparseSpACE.spatiallyAdaptiveExtendSplit import SpatiallyAdaptiveExtendScheme
     from sparseSpACE.spatiallyAdaptiveSingleDimension2 import SpatiallyAdaptiveSingleDimensions2
 
-    class RecTrap(G.TrapezoidalGrid):
-        last = None
+    def rec_grid(base):
+        class RecGrid(base):
+            last = None
 
-        def integrate(self, f, levelvec, start, end):
-            r = super().integrate(f, levelvec, start, end)
-            self.last = np.array(r, dtype=float)
-            return r
-
-    class RecGlobalTrap(G.GlobalTrapezoidalGrid):
-        last = None
-
-        def integrate(self, f, levelvec, start, end):
-            r = super().integrate(f, levelvec, start, end)
-            self.last = np.array(r, dtype=float)
-            return r
+            def integrate(self, f, levelvec, start, end):
+                r = super().integrate(f, levelvec, start, end)
+                self.last = np.array(r, dtype=float)
+                return r
+        RecGrid.__name__ = "Rec" + base.__name__
+        return RecGrid
 
     class RecIntegration(Integration):
         """records the partial result of every accumulation call"""
@@ -828,27 +856,26 @@ def rec_classes():
     class RecDW(RecMixin, SpatiallyAdaptiveSingleDimensions2):
         pass
 
-    return RecTrap, RecGlobalTrap, RecIntegration, RecES, RecDW
+    return rec_grid, RecIntegration, RecES, RecDW
 
 
 def build_adaptive(case, reevaluate=False):
     from sparseSpACE.ErrorCalculator import ErrorCalculatorExtendSplit, ErrorCalculatorSingleDimVolumeGuided
-    RecTrap, RecGlobalTrap, RecIntegration, RecES, RecDW = rec_classes()
+    rec_grid, RecIntegration, RecES, RecDW = rec_classes()
     dim, a, b, gs, fspec = case["dim"], case["a"], case["b"], case["grid"], case["f"]
     an, bn = np.array(a, dtype=float), np.array(b, dtype=float)
     f = make_function(fspec)
+    grid = make_grid(gs, a, b, cls=rec_grid(grid_class(gs)))
     if case["strategy"] == "extend-split":
-        grid = RecTrap(an, bn, boundary=gs["boundary"])
         op = RecIntegration(f, grid=grid, dim=dim)
-        s = RecES(an, bn, operation=op, version=0)
+        s = RecES(an, bn, operation=op, version=0, automatic_extend_split=bool(case.get("automatic")))
         ec = ErrorCalculatorExtendSplit()
     else:
-        grid = RecGlobalTrap(an, bn, boundary=gs["boundary"], modified_basis=gs.get("modified", False))
         ref = None
         if case.get("reference") and fspec["kind"] == "poly":
             ref = np.array([float(x) for x in exact_integral(fspec, a, b)])
         op = RecIntegration(f, grid=grid, dim=dim, reference_solution=ref)
-        s = RecDW(an, bn, operation=op, version=case["version"], rebalancing=case.get("rebalancing", True))
+        s = RecDW(an, bn, operation=op, version=case["version"], rebalancing=case.get("rebalancing", True))   # default grid_surplusses
         ec = ErrorCalculatorSingleDimVolumeGuided()
     s.rec_init()
     if case.get("recalc"):
@@ -948,7 +975,8 @@ def case_adaptive(ctx, drv, case, variant):
     strategy = case["strategy"]
     fspec = case["f"]
     outl = fspec["outl"]
-    exact = fspec["kind"] == "table" or all(den in (1, 2, 4, 8) for terms in fspec["terms"] for (num, den), _ in terms)
+    exact = (case["grid"]["name"] in ("Trapezoidal", "GlobalTrapezoidal") and not case["grid"].get("modified") and
+             (fspec["kind"] == "table" or all(den in (1, 2, 4, 8) for terms in fspec["terms"] for (num, den), _ in terms)))
     base_tags = {"strategy": strategy, "grid": case["grid"]["name"], "recalculate_frequently": bool(case.get("recalc"))}
     ok = True
 
